@@ -7,7 +7,8 @@ use crate::authoring::*;
 fn fwd(op: &Op, _ctx: &dyn Context, operands: &mut dyn CoordinateSet) -> usize {
     let ellps = op.params.ellps(0);
     let eps = ellps.second_eccentricity_squared();
-    let lat_0 = op.params.lat(0).to_radians();
+    // The meridian distance from the equator to the latitude of origin
+    let m_0 = ellps.meridian_latitude_to_distance(op.params.lat(0).to_radians());
     let lon_0 = op.params.lon(0).to_radians();
     let x_0 = op.params.x(0);
     let y_0 = op.params.y(0);
@@ -18,7 +19,7 @@ fn fwd(op: &Op, _ctx: &dyn Context, operands: &mut dyn CoordinateSet) -> usize {
     for i in 0..n {
         let mut coord = operands.get_coord(i);
 
-        let lat = coord[1] + lat_0;
+        let lat = coord[1];
         let (s, c) = lat.sin_cos();
         let cc = c * c;
         let ss = s * s;
@@ -38,7 +39,8 @@ fn fwd(op: &Op, _ctx: &dyn Context, operands: &mut dyn CoordinateSet) -> usize {
         coord[0] = x_0 + k_0 * N * ((c * sd).atanh() + z * (1. + oo * (36. * cc - 29.) / 10.));
 
         // Northing
-        let m = ellps.meridian_latitude_to_distance(lat);
+        // Northings are reckoned from the latitude of origin, lat_0
+        let m = ellps.meridian_latitude_to_distance(lat) - m_0;
         let znos4 = z * N * dlon * s / 4.;
         let ecc = 4. * eps * cc;
         coord[1] = y_0 + k_0 * (m + N * theta_2 + znos4 * (9. + ecc + oo * (20. * cc - 11.)));
@@ -55,7 +57,8 @@ fn fwd(op: &Op, _ctx: &dyn Context, operands: &mut dyn CoordinateSet) -> usize {
 fn inv(op: &Op, _ctx: &dyn Context, operands: &mut dyn CoordinateSet) -> usize {
     let ellps = op.params.ellps(0);
     let eps = ellps.second_eccentricity_squared();
-    let lat_0 = op.params.lat(0).to_radians();
+    // The meridian distance from the equator to the latitude of origin
+    let m_0 = ellps.meridian_latitude_to_distance(op.params.lat(0).to_radians());
     let lon_0 = op.params.lon(0).to_radians();
     let x_0 = op.params.x(0);
     let y_0 = op.params.y(0);
@@ -67,7 +70,7 @@ fn inv(op: &Op, _ctx: &dyn Context, operands: &mut dyn CoordinateSet) -> usize {
         let mut coord = operands.get_coord(i);
         // Footpoint latitude, i.e. the latitude of a point on the central meridian
         // having the same northing as the point of interest
-        let lat = ellps.meridian_distance_to_latitude((coord[1] - y_0) / k_0);
+        let lat = ellps.meridian_distance_to_latitude((coord[1] - y_0) / k_0 + m_0);
         let (s, c) = lat.sin_cos();
         let t = s / c;
         let cc = c * c;
@@ -80,7 +83,7 @@ fn inv(op: &Op, _ctx: &dyn Context, operands: &mut dyn CoordinateSet) -> usize {
 
         // Latitude
         let xet = xx * xx * eps * t / 24.;
-        coord[1] = lat_0 + (1. + cc * eps) * (theta_5 - xet * (9. - 10. * cc)) - eps * cc * lat;
+        coord[1] = (1. + cc * eps) * (theta_5 - xet * (9. - 10. * cc)) - eps * cc * lat;
 
         // Longitude
         let approx = lon_0 + theta_4;
